@@ -36,6 +36,8 @@ def main():
     os.makedirs(SCRATCH)
     sh(f"rsync -a --exclude='*.aux' {VERIF}/coq/ {SCRATCH}/coq/")
     shutil.copy(os.path.join(VERIF, "tools", "py2coq.py"), os.path.join(SCRATCH, "py2coq.py"))   # the translator as it is NOW
+    # the generated files of the scratch copy describe the committed tree, whatever /repo's working tree holds right now
+    sh(f"git -C {VERIF} archive HEAD coq/Gen | tar -x -C {SCRATCH}/ && touch {SCRATCH}/coq/Gen/*.v")
     targets = [t for t in TARGETS if os.path.exists(os.path.join(VERIF, "coq", t[:-1]))]
     base = {f: open(f).read() for f in glob.glob(f"{SCRATCH}/coq/Gen/Src_*.v")}
     out = {}
